@@ -174,6 +174,12 @@ func checkProp(t *testing.T, property string, col *stats.Collector, prop func(c 
 			lastFailure.Lock()
 			p := lastFailure.path[t.Name()]
 			lastFailure.Unlock()
+			if p == "" && raceEnabled {
+				// the test was failed by the race detector, not by the oracle: the driver classifies
+				// the reports (server code on both sides = violation of C12, anything else is not)
+				fmt.Fprintf(os.Stdout, "RACE-DETECTOR-FAILED-TEST property=%s\n", property)
+				return
+			}
 			if p == "" {
 				p = "none"
 			}
